@@ -329,6 +329,37 @@ def hndBody (t : Table) (qf : Option Bytes) : R Bytes :=
         else R.ok (full.out.take full.total)     -- data_string->length = len
     else R.ok []
 
+/-! ### the query string the GET handler receives: coap_get_query() (src/coap_uri.c), one Uri-Query option -/
+
+/-- `is_unescaped_in_query` -/
+def isUnescapedInQuery (c : UInt8) : Bool :=
+  (0x41 ≤ c && c ≤ 0x5A) || (0x61 ≤ c && c ≤ 0x7A) || (0x30 ≤ c && c ≤ 0x39) ||
+  c == 0x2D || c == 0x2E || c == 0x5F || c == 0x7E || c == 0x21 || c == 0x24 || c == 0x27 || c == 0x28 ||
+  c == 0x29 || c == 0x2A || c == 0x2B || c == 0x2C || c == 0x3B || c == 0x3D || c == 0x3A || c == 0x40 ||
+  c == 0x26 || c == 0x2F || c == 0x3F
+
+/-- `"0123456789ABCDEF"[n]` -/
+def hexUpper (n : Nat) : UInt8 := if n < 10 then UInt8.ofNat (48 + n) else UInt8.ofNat (55 + n)
+
+/-- the option value with every other byte written as `%XX` — the handler is handed the *escaped* query -/
+def escapeQuery : Bytes → Bytes
+  | [] => []
+  | c :: r =>
+    if isUnescapedInQuery c then c :: escapeQuery r
+    else 0x25 :: hexUpper (c.toNat / 16) :: hexUpper (c.toNat % 16) :: escapeQuery r
+
+/-- `coap_get_query(request)`: NULL when there is nothing -/
+def getQuery (opt : Option Bytes) : Option Bytes :=
+  match opt with
+  | none => none
+  | some o => if (escapeQuery o).length > 0 then some (escapeQuery o) else none
+
+/-- body of the response to `GET /.well-known/core?<opt>` -/
+def getBody (t : Table) (opt : Option Bytes) : R Bytes := hndBody t (getQuery opt)
+
+/-- number of responses of a complete Block2 transfer with block size `sz` -/
+def nblocks (len sz : Nat) : Nat := if len = 0 then 1 else (len + sz - 1) / sz
+
 /-- block `num` of size `sz` of a body (RFC 7959): what a Block2 GET returns as payload -/
 def block (body : Bytes) (sz num : Nat) : Bytes := (body.drop (num * sz)).take sz
 
